@@ -114,9 +114,25 @@ def to_model(j, key=None):
 
 
 # ----------------------------------------------------------------------------------------------- generators (specs)
+# free text that is LEGAL wherever the rule is "str" / "non-blank str" (GENERATOR_AUDIT A1, A2, A4, A5): blanks of every kind, the formats' own
+# delimiters and their doubled form, case variants, non-ASCII letters and digits, an astral character, a long value, look-alikes of other types
+TEXT_POOL = ["Fedora", "Red Hat Enterprise Linux", "X \u00e9", "a b", " lead", "trail ", "a  b", "tab\there", "nb\u00a0sp", " ", "a-b", "a--b", "a.b", "a..b",
+             "a:b", "a::b", "a/b", "a//b", "a@b", "a,b", "a,,b", "a;b", "a=b", "a = b", "#a", "a#b", "a%b", "a%%b", "%(x)s", "[a]", "]a[", '"a"', "'a'", "a\\b",
+             "a\\\\b", "FEDORA", "fedora", "FeDoRa", "\u0663\uff17", "\U0001d518x", "n" * 300, "None", "null", "0", "False", "1.0"]
+INT_POOL = [1, -1, 2 ** 31, 2 ** 32 + 7, 2 ** 53 + 1, 2 ** 63 - 1, 10 ** 7, 10 ** 8, True, 12]
+REL_PATHS = ["a/b.iso", "a/b/", "a//b", "./a/b", "a/../b", "a/a/a", "..", ".", " a", "a b/c", "A/b", "a/B", "\u00e9/\u0663", "p" * 300, "a:b", "a=b", "a#b", "a%b", "[a]/b"]
+
+
+def _text(rng, k, salt=0):
+    """round-robin through TEXT_POOL (every entry is used, not sampled), mixed with the plain names"""
+    if (k + salt) % 3:
+        return rng.choice(["Fedora", "Red Hat Enterprise Linux", "a b", "n"])
+    return TEXT_POOL[((k + salt) // 3) % len(TEXT_POOL)]
+
+
 def _rel(rng, k, T, layered=False):
-    return dict(name=rng.choice(["Fedora", "Red Hat Enterprise Linux", "X é", "a b"]), short=rng.choice(["F", "rhel", "My-Prod"]),
-                version=rng.choice(["22", "7.1", "Rawhide", "1.2.3", "0"]), type=T["RELEASE_TYPES"][k % len(T["RELEASE_TYPES"])],
+    return dict(name=_text(rng, k, 0), short=rng.choice(["F", "rhel", "My-Prod", _text(rng, k, 1)]),
+                version=rng.choice(["22", "7.1", "Rawhide", "1.2.3", "0", "10.20.30", "1.0", "x-y", "None", "\u00e9"]), type=T["RELEASE_TYPES"][k % len(T["RELEASE_TYPES"])],
                 is_layered=layered, internal=(k % 3 == 0))
 
 
@@ -124,58 +140,87 @@ def _compose(rng, k, T):
     ctype = T["COMPOSE_TYPES"][k % len(T["COMPOSE_TYPES"])]
     suffix = {"production": "", "ci": ".ci", "nightly": ".n", "test": ".t", "development": ".d"}.get(ctype, "")
     date = "%08d" % rng.randrange(10 ** 8)
-    respin = rng.choice([0, 1, 12])
+    if k % 11 == 3:
+        date = "".join(chr(0x0660 + int(c)) for c in date)          # `\d` is Unicode-aware: Arabic-Indic digits are in the documented language
+    if k % 11 == 7:
+        date = "".join(chr(0xFF10 + int(c)) for c in date)
+    respin = [0, 1, 12, 10, 10 ** 7, 10 ** 8, True, 2 ** 63 - 1, -1][k % 9] if k % 2 else rng.choice([0, 1, 12])
     label = None
     if k % 2 == 0:
-        label = "%s-%d.%d" % (T["LABEL_NAMES"][(k // 2) % len(T["LABEL_NAMES"])], rng.randrange(20), rng.randrange(20))
-    return dict(id="Rel-1.0-%s%s.%d" % (date, suffix, respin), type=ctype, date=date, respin=respin, label=label, final=(k % 4 == 0))
+        # label and `final` are decoupled: both values of final with and without a label (A9)
+        label = "%s-%d.%d" % (T["LABEL_NAMES"][(k // 2) % len(T["LABEL_NAMES"])], rng.choice([0, 1, 10, 19, 123]), rng.choice([0, 1, 10, 19, 123]))
+    cid = rng.choice(["Rel-1.0-%s%s.%s", "%s%s.%s", " x %s%s.%s trailing", "Rel-1.0-%s%s.%s.more"]) % (date, suffix, int(respin))
+    return dict(id=cid, type=ctype, date=date, respin=respin, label=label, final=[False, True, True, False][(k // 2) % 4])
 
 
 def gen(rng, fmt, k):
-    """a spec (JSON-able) of a valid object; `k` drives the round-robin over every enumeration value"""
+    """a spec (JSON-able) of a valid object; `k` drives the round-robin over every enumeration value and every pool entry"""
     T = tables()
     if fmt == "composeinfo":
         layered = (k % 3 == 1)
-        spec = dict(release=_rel(rng, k, T, layered), base_product=_rel(rng, k + 1, T) if layered else None, compose=_compose(rng, k, T), variants=[])
+        spec = dict(release=_rel(rng, k, T, layered), base_product=_rel(rng, k + 1, T) if layered else None, compose=_compose(rng, k, T), variants=[],
+                    style=k % 2)
         n = [0]
+        arch_tab = [a for a in T["RPM_ARCHES"] if a not in ("src", "nosrc")]
+        top_arches = ARCHES + [arch_tab[k % len(arch_tab)], arch_tab[-1]]          # every documented arch, the LAST table entry every time
 
         def mkv(parent, depth):
             n[0] += 1
             vid = "V%d%s" % (n[0], rng.choice(["", "x", "Z"]))
+            if parent is None and n[0] == 2 and k % 5 == 2:
+                vid = spec["variants"][0]["id"].swapcase()                          # two ids that differ only in case (A4)
             vt = T["VARIANT_TYPES"]
             vtype = vt[(k + n[0]) % len(vt)]
             uid = vid if parent is None else parent["uid"] + "-" + vid
-            if parent is None and rng.random() < 0.2 and vtype != "optional":
+            if parent is None and rng.random() < 0.2 and vtype != "optional" and len(vid) > 1:
                 uid = vid[:1] + "-" + vid[1:]
-            pa = parent["arches"] if parent is not None else ARCHES
+            pa = parent["arches"] if parent is not None else sorted(set(top_arches))
             arches = sorted(rng.sample(pa, rng.randint(1, len(pa))))
-            v = dict(id=vid, uid=uid, name=rng.choice(["n", "Name %d" % n[0]]), type=vtype, arches=arches,
+            v = dict(id=vid, uid=uid, name=_text(rng, k, n[0]), type=vtype, arches=arches,
                      release=_rel(rng, k + n[0], T, True) if vtype == "layered-product" else None, paths={}, kids=[])
             for cat in rng.sample(CI_CATS, rng.randint(0, 3)):
-                v["paths"][cat] = dict((a, "%s/%s/%s" % (uid, a, cat)) for a in rng.sample(arches, rng.randint(1, len(arches))))
+                v["paths"][cat] = dict((a, REL_PATHS[(k + n[0]) % len(REL_PATHS)]) for a in rng.sample(arches, rng.randint(1, len(arches))))
+            if k % 7 == 4:
+                v["paths"][CI_CATS[-1]] = {}                                        # an EMPTY bucket that still exists (A10)
             if depth < 3 and "-" not in (uid if parent is None else ""):
                 for _ in range(rng.choice([0, 0, 1, 2])):
                     v["kids"].append(mkv(v, depth + 1))
+                rng.shuffle(v["kids"])                                              # insertion order differs from sorted order
             return v
-        for _ in range(rng.randint(1, 3)):
+        for _ in range(0 if k % 13 == 6 else rng.randint(1, 3)):                    # a compose without variants is legal
             spec["variants"].append(mkv(None, 1))
+        rng.shuffle(spec["variants"])
         return spec
     if fmt == "images":
-        spec = dict(compose=_compose(rng, k, T), images=[])
+        spec = dict(compose=_compose(rng, k, T), images=[], version=["1.2", "0.0", "1.0", "1.1"][k % 4], shared=[], empty_cells=[])
         TF = T["IMAGE_TF"]
+        arch_tab = [a for a in T["RPM_ARCHES"] if a not in ("src", "nosrc")]
         j = 0
-        for v in rng.sample(["Server", "Client", "Work-station"], rng.randint(1, 2)):
-            for a in rng.sample(["x86_64", "i386", "ppc64le", "noarch"], rng.randint(1, 2)):
-                for _ in range(rng.randint(1, 3)):
-                    j += 1
-                    t, f = TF[(k * 5 + j) % len(TF)]
-                    u = rng.random() < 0.3
-                    spec["images"].append(dict(variant=v, arch=a, fields=dict(
-                        path="%s/%s/%s%d.%s" % (v, a, rng.choice(["a", "B", "0"]), j, f), mtime=rng.choice([0, 1, 2 ** 31 + 5]), size=rng.choice([1, 2 ** 32 + 7]),
-                        volume_id=rng.choice([None, "vol %d" % j]), type=t, format=f, arch=rng.choice([a, "src"]), disc_number=j, disc_count=j + rng.randrange(2),
-                        checksums=dict(rng.sample([("md5", "m%d" % j), ("sha1", "s%d" % j), ("sha256", "S%d" % j)], rng.randint(1, 3))),
-                        implant_md5=rng.choice([None, "%032x" % (j * 7919)]), bootable=rng.random() < 0.5, subvariant=rng.choice(["", "KDE", "Server"]),
-                        unified=u, additional_variants=(rng.sample(["A", "B", "C"], rng.randint(0, 2)) if u else []))))
+        cells = [] if k % 13 == 6 else [(v, a) for v in rng.sample(["Server", "Client", "Work-station", "server"], rng.randint(1, 2))
+                                        for a in rng.sample(["x86_64", "i386", "ppc64le", "noarch"], rng.randint(1, 2))]
+        if cells:
+            cells.append((cells[0][0], arch_tab[k % len(arch_tab)]))                # every documented arch as a cell key …
+            cells.append((cells[0][0], arch_tab[-1]))                               # … and the last table entry in every manifest
+        for v, a in cells:
+            for _ in range(rng.randint(1, 3)):
+                j += 1
+                t, f = TF[(k * len(cells) + j) % len(TF)] if j > 1 else TF[k % len(TF)]
+                u = rng.random() < 0.3
+                num = rng.choice([1, 3, 10, j])
+                spec["images"].append(dict(variant=v, arch=a, fields=dict(
+                    path=REL_PATHS[(k + j) % len(REL_PATHS)] if (k + j) % 3 == 0 else "%s/%s/%s%d.%s" % (v, a, rng.choice(["a", "B", "0"]), j, f),
+                    mtime=rng.choice([0, 1, -1] + INT_POOL), size=INT_POOL[(k + j) % len(INT_POOL)],
+                    volume_id=rng.choice([None, "vol %d" % j, " ", _text(rng, k, j)]), type=t, format=f,
+                    arch=rng.choice([a, "src", "nosrc", "i386", arch_tab[(k + j) % len(arch_tab)], _text(rng, k, j + 1)]),       # decoupled from the cell key
+                    disc_number=num + 10 * j, disc_count=rng.choice([num, 1, 3, 0, -1, True, 2 ** 31]),                            # decoupled from each other
+                    checksums=dict(rng.sample([("md5", "m%d" % j), ("sha1", "s%d" % j), ("sha256", "S%d" % j), ("SHA256", "x"), ("", "")], rng.randint(1, 3))),
+                    implant_md5=rng.choice([None, "%032x" % (j * 7919), "0" * 32, "z" * 32]), bootable=rng.random() < 0.5,
+                    subvariant=rng.choice(["", "KDE", "Server", _text(rng, k, j + 2)]),
+                    unified=u, additional_variants=(rng.sample(["A", "B", "C", "", "A"], rng.randint(0, 3)) if u else []))))
+        if spec["images"] and k % 4 == 1:
+            spec["shared"].append([0, "Shared", "x86_64"])                          # the same Image object filed in a second cell
+        if k % 6 == 5:
+            spec["empty_cells"].append(["Emptied", "x86_64"])                       # a cell whose only image was removed again
         return spec
     if fmt == "rpms":
         spec = dict(compose=_compose(rng, k, T), rpms=[])
@@ -193,40 +238,62 @@ def gen(rng, fmt, k):
             spec["extra_files"].append(["Server", "x86_64", "Server/x86_64/os/GPL%d" % i, 100 + i, {"sha256": "ab%d" % i}])
         return spec
     if fmt == "treeinfo":
-        arch = rng.choice(["x86_64", "ppc64le", "src"])
+        arch = rng.choice(["x86_64", "ppc64le", "src", "ppc", "ppc64"])
         layered = (k % 3 == 1)
-        plats = sorted(set(rng.sample(["xen", "efi", "Mixed"], rng.randint(0, 2))) | {arch})
-        spec = dict(release=dict(name=rng.choice(["Fedora", "Red Hat Enterprise Linux", "A = B"]), short=rng.choice(["F", "RHEL"]),
-                                 version=rng.choice(["20", "7.1", "Rawhide", "1.2.3"]), is_layered=layered),
-                    base_product=dict(name="Base", short="B", version=rng.choice(["7", "Beta", "7.1"])) if layered else None,
-                    tree=dict(arch=arch, build_timestamp=rng.choice([1, 123456, -5, 2 ** 40, 1234.5]), platforms=plats), variants=[],
-                    images={}, stage2=dict(mainimage=None, instimage=None), media=dict(discnum=None, totaldiscs=None), checksums={})
+        plats = sorted(set(rng.sample(["xen", "efi", "Mixed", "mixed", "x86_64-xen", "a b"], rng.randint(0, 3))) | {arch})
+        # numbers: boundaries, negative, fraction >= .5, beyond 2^53; the two NON-FINITE floats are floats too (finding F35), bounded in number
+        stamps = [1, 123456, -5, 2 ** 40, 1234.5, -0.5, 0.5, 2 ** 53 + 1, 2 ** 63 - 1, 1e300, True, -1]
+        ts = stamps[k % len(stamps)]
+        if k % 41 == 9:
+            ts = {"$float": ["inf", "-inf", "nan"][(k // 41) % 3]}
+        text = lambda salt: _text(rng, k, salt).replace("\n", " ")
+        spec = dict(release=dict(name=text(0), short=rng.choice(["F", "RHEL", text(1)]),
+                                 version=rng.choice(["20", "7.1", "Rawhide", "1.2.3", "0", "10.20.30", "x-7", "\u0663", "\u0663.\uff17"]), is_layered=layered),
+                    base_product=dict(name=text(2), short="B", version=rng.choice(["7", "Beta", "7.1"])) if layered else None,
+                    tree=dict(arch=arch, build_timestamp=ts, platforms=plats), variants=[],
+                    images={}, stage2=dict(mainimage=None, instimage=None), media=dict(discnum=None, totaldiscs=None), checksums={}, style=k % 2)
         n = 0
         TV = T["TREEINFO_VARIANT_TYPES"]
-        for _ in range(rng.randint(1, 3)):
+        nvar = 0 if k % 43 == 11 else rng.randint(1, 3)                              # a tree without variants satisfies every field rule (finding F12)
+        for _ in range(nvar):
             n += 1
-            v = dict(id="V%d" % n, uid="V%d" % n, name=rng.choice(["n", "Name %d" % n]), type=rng.choice(["variant", "optional"]), paths={}, kids=[])
+            v = dict(id="V%d" % n, uid="V%d" % n, name=text(n + 2), type=rng.choice(["variant", "optional"]), paths={}, kids=[])
+            if n == 2 and k % 5 == 2:
+                v["id"] = v["uid"] = "v1"                                            # ids that differ only in case
+            if n == 1 and k % 5 == 3:
+                v.update(id="optional", uid="V9-optional", type="optional", key="V9-optional")   # top-level UID != id, keyed by its UID (A9)
             for f in rng.sample(TI_PATHS, rng.randint(0, 4)):
-                v["paths"][f] = rng.choice([".", "Packages", "a b/c"])
-            for _ in range(rng.choice([0, 0, 1, 2])):
+                v["paths"][f] = rng.choice([".", "Packages", "a b/c"] + REL_PATHS)
+            for _ in range(rng.choice([0, 0, 1, 2]) if "key" not in v else 0):
                 n += 1
                 c = dict(id="K%d" % n, uid=v["uid"] + "-K%d" % n, name="kid", type=TV[(k + n) % len(TV)], paths={}, kids=[])
                 v["kids"].append(c)
+            rng.shuffle(v["kids"])
             spec["variants"].append(v)
+        rng.shuffle(spec["variants"])
         for p in rng.sample(plats, rng.randint(0, len(plats))):
-            spec["images"][p] = dict((i, "images/%s/%s" % (p, i)) for i in rng.sample(["kernel", "initrd", "boot.iso", "UPGRADE"], rng.randint(1, 3)))
+            names = rng.sample(["kernel", "Kernel", "initrd", "boot.iso", "UPGRADE", "a b"], rng.randint(1, 3))
+            spec["images"][p] = dict((i, rng.choice(["images/%s/%s" % (p, i), REL_PATHS[(k + len(i)) % len(REL_PATHS)], ""])) for i in names)
+        if k % 7 == 4 and plats:
+            spec["images"][plats[0]] = {}                                            # a platform table that exists but is empty
         if rng.random() < 0.6:
-            spec["stage2"]["mainimage"] = "LiveOS/squashfs.img"
+            spec["stage2"]["mainimage"] = rng.choice(["LiveOS/squashfs.img"] + REL_PATHS)
         if rng.random() < 0.2:
-            spec["stage2"]["instimage"] = "images/install.img"
+            spec["stage2"]["instimage"] = rng.choice(["images/install.img", "/abs/is/not/checked", ""])
         if rng.random() < 0.5:
-            spec["media"] = dict(discnum=rng.randint(1, 3), totaldiscs=3)
-        for i in range(rng.randint(0, 2)):
-            spec["checksums"]["images/boot%d.iso" % i] = [rng.choice(["sha256", "md5"]), "%x" % rng.getrandbits(64)]
+            spec["media"] = rng.choice([dict(discnum=rng.randint(1, 3), totaldiscs=3), dict(discnum=1, totaldiscs=1), dict(discnum=3, totaldiscs=1),
+                                        dict(discnum=10, totaldiscs=2 ** 31), dict(discnum=True, totaldiscs=True), dict(discnum=-1, totaldiscs=-1)])
+        for i in range(rng.randint(0, 3)):
+            spec["checksums"][rng.choice(["images/boot%d.iso", "./x//y/../Z%d.img", "UP/low%d", "a b/%d", "up/LOW%d"]) % i] = \
+                [rng.choice(["sha256", "md5", "SHA256", "sha512", ""]), "%x" % rng.getrandbits(64)]
         return spec
     if fmt == "discinfo":
-        return dict(timestamp={"$float": repr(rng.choice([1.5, 1400000000.123, -2.0, 1e10]))}, description=rng.choice(["Fedora 20", "x", "a b c"]),
-                    arch=rng.choice(ARCHES), disc_numbers=rng.choice([["ALL"], [1], [1, 2, 3]]))
+        stamps = [1.5, 1400000000.123, -2.0, 1e10, 0.5, -0.5, 1e300, 5e-324, float(2 ** 53 + 1)]
+        ts = {"$float": repr(stamps[k % len(stamps)])}
+        if k % 37 == 8:
+            ts = {"$float": ["inf", "-inf", "nan"][(k // 37) % 3]}
+        return dict(timestamp=ts, description=_text(rng, k, 0) if _text(rng, k, 0).strip() else "x", arch=rng.choice(ARCHES + [_text(rng, k, 1)]),
+                    disc_numbers=[["ALL"], [1], [1, 2, 3], [0], [10, 11], ["ALL", "ALL"], ["all"], [1, 1], [3, 1, 2], ["x"], [-1], [True], [2 ** 63]][k % 13])
     raise ValueError(fmt)
 
 
@@ -249,11 +316,18 @@ def build(fmt, spec):
         def mk(vs, parent):
             v = p.composeinfo.Variant(ci)
             _set(v, vs, ("id", "uid", "name", "type"))
-            v.arches = set(vs["arches"])
+            style = spec.get("style", 0)
+            if style:                                   # fill the default containers in place …
+                v.arches.update(vs["arches"])
+            else:                                       # … or assign fresh ones
+                v.arches = set(vs["arches"])
             if vs["release"]:
                 _set(v.release, vs["release"])
             for cat, d in vs["paths"].items():
-                getattr(v.paths, cat).update(d)
+                if style:
+                    setattr(v.paths, cat, dict(d))
+                else:
+                    getattr(v.paths, cat).update(d)
             (parent if parent is not None else ci.variants).add(v)
             for kid in vs["kids"]:
                 mk(kid, v)
@@ -264,10 +338,19 @@ def build(fmt, spec):
         im = p.images.Images()
         im.header.version = spec.get("version", "1.2")
         _set(im.compose, spec["compose"])
+        objs = []
         for e in spec["images"]:
             i = p.images.Image(im)
             _set(i, e["fields"])
             im.add(e["variant"], e["arch"], i)
+            objs.append(i)
+        for idx, variant, arch in spec.get("shared", []):
+            im.add(variant, arch, objs[idx])
+        for variant, arch in spec.get("empty_cells", []):
+            tmp = p.images.Image(im)
+            _set(tmp, dict(spec["images"][0]["fields"], disc_number=999999) if spec["images"] else {})
+            im.images.setdefault(variant, {}).setdefault(arch, set()).add(tmp)
+            im.images[variant][arch].discard(tmp)
         return im
     if fmt == "rpms":
         o = p.rpms.Rpms(); _set(o.compose, spec["compose"])
@@ -297,17 +380,28 @@ def build(fmt, spec):
             for f, x in vs["paths"].items():
                 setattr(v.paths, f, x)
             if parent is None:
-                ti.variants.add(v)
+                if vs.get("key"):
+                    ti.variants.add(v, variant_id=vs["key"])
+                else:
+                    ti.variants.add(v)
             else:
                 parent.add(v)
             for kid in vs["kids"]:
                 mk(kid, v)
         for vs in spec["variants"]:
             mk(vs, None)
-        ti.images.images = copy.deepcopy(spec["images"])
+        if spec.get("style", 0):
+            for plat, tab in spec["images"].items():
+                ti.images.images[plat] = {}
+                ti.images.images[plat].update(tab)
+        else:
+            ti.images.images = copy.deepcopy(spec["images"])
         _set(ti.stage2, spec["stage2"]); _set(ti.media, spec["media"])
         for path, tv in spec["checksums"].items():
-            ti.checksums.checksums[path] = list(tv)
+            if spec.get("style", 0):
+                ti.checksums.add(path, tv[0], tv[1])          # the public way: the key is normalised
+            else:
+                ti.checksums.checksums[path] = list(tv)
         return ti
     if fmt == "discinfo":
         d = p.discinfo.DiscInfo()
